@@ -54,10 +54,10 @@ def sh(cmd, cwd=None, inp=None, timeout=None, env=None):
 # ------------------------------------------------------------------------------------------------
 # Lean side
 
-def lake_build():
+def lake_build(extra_targets=()):
     """(ok, log).  Re-checks every proof that changed (or whose Generated/* input changed)."""
     with Lock("lake"):
-        rc, out, err = sh(["lake", "build", "Tbfmm", "tbfmm_driver"], cwd=LEAN, timeout=3600)
+        rc, out, err = sh(["lake", "build", "Tbfmm", "tbfmm_driver"] + list(extra_targets), cwd=LEAN, timeout=3600)
     return rc == 0, out + err
 
 
@@ -111,12 +111,12 @@ def registry():
     return json.load(open(os.path.join(LEAN, "registry.json")))
 
 
-def audit(theorems):
+def audit(theorems, extra_imports=()):
     """`#print axioms` for every theorem; returns {name: {"ok": bool, "axioms": [...], "msg": str}}"""
     res = {}
     if not theorems:
         return res
-    src = "import Tbfmm\n" + "".join("#print axioms %s\n" % t for t in theorems)
+    src = "import Tbfmm\n" + "".join("import %s\n" % m for m in extra_imports) + "".join("#print axioms %s\n" % t for t in theorems)
     fd, path = tempfile.mkstemp(suffix=".lean", prefix="audit_", dir=CACHE)
     os.write(fd, src.encode())
     os.close(fd)
